@@ -5,6 +5,7 @@
   `erf` is a parameter characterised by its derivative (`C13.IsErf`, witness `C13.erfR`).
 -/
 import SkyllhModel.Model.Flux
+import SkyllhModel.Model.FluxRvR7
 import SkyllhModel.Generated.C13
 import SkyllhModel.Proofs.RealScalar
 import Mathlib.Analysis.SpecialFunctions.Pow.Deriv
@@ -1901,3 +1902,101 @@ example : ∀ j cj, j ∈ targets ([.unityS, .pl 1 2, .box ⟨0, 1⟩, .ffm 1 [0
     subst hcj <;> simp [C13.names_expected] at hn ⊢
 example : ∃ E0 γ E2 : ℝ, 0 < E0 ∧ γ < 1 ∧ 0 ≤ E2 := ⟨10, 1 / 2, 1000, by norm_num, by norm_num, by norm_num⟩
 example : ∃ E0 γ E1 : ℝ, 0 < E0 ∧ 1 < γ ∧ 0 < E1 := ⟨10, 2, 100, by norm_num, by norm_num, by norm_num⟩
+
+/-! ## Round 7 — the scipy random variable of a time profile (`skyllh/core/utils/flux_model.py`,
+`Model/FluxRvR7.lean`): the frozen part is the support `[a, b]` and `norm`, the profile is evaluated live -/
+
+namespace C13
+
+theorem rvNorm_eq (d tot : ℝ) : rvNorm d tot = if tot = 0 then d else 1 / tot := by
+  unfold rvNorm; by_cases h : tot = 0 <;> simp [h]
+
+/-- on the frozen support the density is `call x * norm` -/
+theorem rvPdfSpec_integral (r : Rv ℝ) (call : ℝ → ℝ) (_hab : r.a ≤ r.b) {u v : ℝ} (hu : r.a ≤ u) (huv : u ≤ v)
+    (hv : v ≤ r.b) : ∫ x in u..v, rvPdfSpec r call x = (∫ x in u..v, call x) * r.norm := by
+  rw [← intervalIntegral.integral_mul_const]
+  apply intervalIntegral.integral_congr
+  intro x hx
+  rw [Set.uIcc_of_le huv] at hx
+  simp only [rvPdfSpec]
+  rw [if_pos ⟨hu.trans hx.1, hx.2.trans hv⟩]
+
+end C13
+
+/-- with the constants of the current source (`freeze(loc=0, scale=1)`) scipy's `pdf` wrapper is the
+specification form: the live profile value times the frozen `norm` on the frozen closed support, 0 outside;
+never the bad-value branch -/
+theorem c13_rv_pdf_for_current_source (r : Rv ℝ) (call : ℝ → ℝ) (x : ℝ) :
+    rvPdf Gen.C13.rvLoc Gen.C13.rvScale r call x = some (rvPdfSpec r call x) := by
+  have h0 : (Gen.C13.rvLoc : ℝ) = 0 := by unfold Gen.C13.rvLoc; norm_num
+  have h1 : (Gen.C13.rvScale : ℝ) = 1 := by unfold Gen.C13.rvScale; norm_num
+  simp only [rvPdf, rvPdfSpec, h0, h1, sub_zero, div_one, zero_lt_one, if_true]
+  split_ifs <;> rfl
+
+/-- … and scipy's `cdf` wrapper is: 1 from the frozen `b` on, the live `profile.cdf` on the open support, 0 below -/
+theorem c13_rv_cdf_for_current_source (r : Rv ℝ) (cdf : ℝ → ℝ) (x : ℝ) :
+    rvCdf Gen.C13.rvLoc Gen.C13.rvScale r cdf x = some (rvCdfSpec r cdf x) := by
+  have h0 : (Gen.C13.rvLoc : ℝ) = 0 := by unfold Gen.C13.rvLoc; norm_num
+  have h1 : (Gen.C13.rvScale : ℝ) = 1 := by unfold Gen.C13.rvScale; norm_num
+  simp only [rvCdf, rvCdfSpec, h0, h1, sub_zero, div_one, zero_lt_one, if_true]
+  by_cases hb : r.b ≤ x
+  · simp [hb]
+  · have hb' : x < r.b := not_le.mp hb
+    simp only [hb, hb', if_false, and_true]
+    split_ifs <;> rfl
+
+/-- **the density integrates to one over the support** for any profile whose total integral (the integral of
+its own values over `[a, b]`, i.e. `get_total_integral` by the closed-form theorems) is not zero — whatever the
+default `norm` literal is -/
+theorem c13_rv_pdf_normalised (call : ℝ → ℝ) {a b : ℝ} (d : ℝ) (hab : a ≤ b) (htot : (∫ x in a..b, call x) ≠ 0) :
+    ∫ x in a..b, rvPdfSpec ⟨a, b, rvNorm d (∫ x in a..b, call x)⟩ call x = 1 := by
+  rw [C13.rvPdfSpec_integral _ call hab le_rfl hab le_rfl, C13.rvNorm_eq, if_neg htot]
+  field_simp
+
+/-- box: the variable created from a box of positive width is normalised (total integral = closed form > 0) -/
+theorem c13_rv_box_normalised (d : ℝ) (erf : ℝ → ℝ) (w : Win ℝ) (hse : w.tStart < w.tStop) :
+    ∃ r, rvNew d erf (.box w) = some r ∧ r.a = w.tStart ∧ r.b = w.tStop ∧
+      ∫ x in w.tStart..w.tStop, rvPdfSpec r (boxCall w) x = 1 := by
+  refine ⟨⟨w.tStart, w.tStop, rvNorm d (boxIntegral w w.tStart w.tStop)⟩, rfl, rfl, rfl, ?_⟩
+  rw [← c13_box_integral w hse.le hse.le]
+  exact c13_rv_pdf_normalised _ d hse.le (c13_box_cdf_integral w hse le_rfl).2.ne'
+
+/-- gaussian: the variable created from a gaussian with `σ ≠ 0` and a proper window (every constructed /
+updated one, `c13_gauss_checked`, `c13_fresh_gauss_ordered`) is normalised -/
+theorem c13_rv_gauss_normalised {erf : ℝ → ℝ} (herf : C13.IsErf erf) (d : ℝ) (g : Gauss ℝ) (hσ : g.sigma ≠ 0)
+    (hse : g.tStart < g.tStop) :
+    ∃ r, rvNew d erf (.gauss g) = some r ∧ r.a = g.tStart ∧ r.b = g.tStop ∧
+      ∫ x in g.tStart..g.tStop, rvPdfSpec r (gaussCall g) x = 1 := by
+  refine ⟨⟨g.tStart, g.tStop, rvNorm d (gaussTotal erf g)⟩, rfl, rfl, rfl, ?_⟩
+  unfold gaussTotal
+  rw [← c13_gauss_integral herf g hσ hse.le]
+  exact c13_rv_pdf_normalised _ d hse.le (c13_gauss_cdf_integral herf g hσ hse le_rfl).2.ne'
+
+/-- zero-width box: the total integral is 0, `norm` keeps the literal of the source (0), the density vanishes -/
+theorem c13_rv_zero_width (erf : ℝ → ℝ) (t0 : ℝ) (call : ℝ → ℝ) (x : ℝ) :
+    ∃ r, rvNew (Gen.C13.rvNormDefault : ℝ) erf (.box (boxNew t0 0)) = some r ∧ rvPdfSpec r call x = 0 := by
+  refine ⟨_, rfl, ?_⟩
+  have hd : (Gen.C13.rvNormDefault : ℝ) = 0 := by unfold Gen.C13.rvNormDefault; norm_num
+  have ht : boxIntegral (boxNew t0 (0:ℝ)) (boxNew t0 (0:ℝ)).tStart (boxNew t0 (0:ℝ)).tStop = 0 := by
+    simp [boxIntegral, boxNew, minF, maxF]
+  simp only [rvPdfSpec, ht, C13.rvNorm_eq, hd, if_true, mul_zero, ite_self]
+
+/-- "the variable follows its profile": the density of the variable, evaluated after the profile was
+re-parameterised, still integrates to one over its support … -/
+def c13_rv_follows_profile_statement : Prop :=
+  ∀ (d : ℝ) (w w' : Win ℝ), w.tStart < w.tStop → w'.tStart < w'.tStop →
+    ∫ x in w.tStart..w.tStop,
+      rvPdfSpec ⟨w.tStart, w.tStop, rvNorm d (boxIntegral w w.tStart w.tStop)⟩ (boxCall w') x = 1
+
+/-- … is false for the code as it is (open finding `C13/rv:stale`): box `t0 = 2, tw = 4`, variable created,
+then `set_params({'tw': 2})`: the density integrates to 1/2 -/
+theorem c13_rv_stale_counterexample : ¬ c13_rv_follows_profile_statement := by
+  intro h
+  have h' := h 0 ⟨0, 4⟩ ⟨1, 3⟩ (by norm_num) (by norm_num)
+  rw [C13.rvPdfSpec_integral _ _ (by norm_num) le_rfl (by norm_num) le_rfl,
+    c13_box_integral ⟨1, 3⟩ (by norm_num) (by norm_num), C13.rvNorm_eq] at h'
+  norm_num [boxIntegral, minF, maxF] at h'
+
+example : ∃ w : Win ℝ, w.tStart < w.tStop := ⟨⟨0, 4⟩, by norm_num⟩
+example : ∃ g : Gauss ℝ, g.sigma ≠ 0 ∧ g.tStart < g.tStop := ⟨⟨-1, 1, 1, 0⟩, by norm_num, by norm_num⟩
+example : ∃ (call : ℝ → ℝ) (a b : ℝ), a ≤ b ∧ (∫ x in a..b, call x) ≠ 0 := ⟨fun _ => 1, 0, 1, by norm_num, by simp⟩
